@@ -68,7 +68,7 @@ func run(c *lib.Ctx) {
 			specs = append(specs, childSpec{mode, a, name})
 		}
 	}
-	shards("e2e", "", c.Pick(6, 12))
+	shards("e2e", "", c.Pick(8, 12))
 	shards("seg", "", c.Pick(2, 4))
 	shards("bulk", "hello", c.Pick(4, 12))
 	shards("bulk", "ua", c.Pick(2, 6))
@@ -105,8 +105,8 @@ func run(c *lib.Ctx) {
 	// a run that observed too little is broken, not a pass
 	c.Floor("hello_parser_calls", int64(c.Pick(300000, 15000000)))
 	c.Floor("hello_parsed_with_curves", 10000)
-	c.Floor("seg_handshakes", int64(c.Pick(2000, 40000)))
-	c.Floor("seg_boundaries_observed_as_reads", int64(c.Pick(1800, 36000)))
+	c.Floor("seg_handshakes", int64(c.Pick(4000, 40000)))
+	c.Floor("seg_boundaries_observed_as_reads", int64(c.Pick(3600, 36000)))
 	c.Floor("rawtls_connections", int64(c.Pick(1000, 10000)))
 	c.Floor("ua_handler_calls", 100000)
 	c.Floor("ua_verdict_checked", 50000)
@@ -115,7 +115,7 @@ func run(c *lib.Ctx) {
 	c.Floor("req_reached_site_middleware", 3000)
 	c.Floor("link_e2e_backend_contacted", 500)
 	c.Floor("link_e2e_push_promises", 1)
-	c.Floor("e2e_liveness_probes_ok", int64(c.Pick(6, 12)))
+	c.Floor("e2e_liveness_probes_ok", int64(c.Pick(8, 12)))
 	c.Floor("seg_server_alive_after", int64(c.Pick(2, 4)))
 
 	c.Assume("hooks (build tag verif) expose the unexported entry points unchanged: VerifParseClientHello/VerifHelloHeuristics = parseRawClientHello + looksLike*, VerifNewHelloListener = newTLSListener, VerifMITMHandler(For) = tlsHandler, VerifParseLinkHeader = parseLinkHeader")
@@ -125,7 +125,18 @@ func run(c *lib.Ctx) {
 	c.Assume("loopback only; FastCGI responder that never answers is not driven (hang, not panic)")
 }
 
+var wallMu sync.Mutex
+var childWall = map[string]float64{}
+
 func merge(c *lib.Ctx, sp childSpec, res *lib.SubResult) {
+	wallMu.Lock()
+	childWall[sp.name] = float64(int(res.Wall.Seconds()*10)) / 10
+	cw := map[string]float64{}
+	for k, v := range childWall {
+		cw[k] = v
+	}
+	wallMu.Unlock()
+	c.Set("child_wall_s", cw)
 	outPath := filepath.Join(c.Dir, sp.name+".out.json")
 	slot := readSlot(filepath.Join(c.Dir, sp.name+".slot"))
 	var out childOut
